@@ -1,6 +1,8 @@
 """Rule registry."""
-from . import calendar_mode, normalise, eqhash, recurrence, ownership
+from . import (calendar_mode, normalise, eqhash, recurrence, ownership,
+               typestate)
 
 ALL_RULES = {}
-for _mod in (calendar_mode, normalise, eqhash, recurrence, ownership):
+for _mod in (calendar_mode, normalise, eqhash, recurrence, ownership,
+             typestate):
     ALL_RULES.update(_mod.RULES)
